@@ -273,3 +273,23 @@ PROPS["C16"] = dict(
     assumptions=["time/tzdata embedded in the harness binary provides the named zones"],
     stages=[dict(name="timestamps", run="^TestTimestamps$", quick=40000, thorough=1600000, shards=16, timeout_thorough=3000)],
 )
+
+PROPS["C17"] = dict(
+    pkg="c17", level="exploration",
+    technique="model-based stateful property testing (rapid) of RegisterLevel histories against a reference registry; round-trip properties for every known level",
+    claim=("Generated histories of RegisterLevel calls (values negative / colliding with built-ins / 12..40 / huge, titles fresh or equal to a "
+           "built-in name, alias or earlier title in another case, every option combination, partially empty tag tables) interleaved with "
+           "lookups are run against a model registry: a call must be refused iff its value or exact title is in use (either outcome is "
+           "accepted for a title that differs only by case), a refusal must leave a fingerprint of every observable (AllLevels, names, text "
+           "marshalling, short tags, parse results, gating, routing) unchanged, and after a success every known level still satisfies: "
+           "String()==title, ParseLevel(String())==level, text and JSON round trips (direct and through encoding/json in a struct), custom tag "
+           "or exactly n characters for ShortTag(1..5), gating as the treated-as level, routing to the error writers iff requested."),
+    note="Titles are 1-12 ASCII letters (ShortTag length is defined on bytes); treated-as targets Panic..Trace; the registry is restored between cases by the verif hook.",
+    rule=("rapid draws 1-8 steps (3/4 registrations, 1/4 lookups of a known level). Non-trivial: the history contains a refused registration, a "
+          "case-variant title or a successful registration; distinct = the history text."),
+    assumptions=["gating and routing oracles are those of C01 and C03"],
+    stages=[
+        dict(name="builtins", run="^TestBuiltinRoundTrips$", quick=1, thorough=1),
+        dict(name="histories", run="^TestRegistryHistories$", quick=6000, thorough=300000, shards=16, timeout_thorough=3000),
+    ],
+)
